@@ -187,6 +187,8 @@ extern "C" int simk_close(int fd)
 	OWN(fd);
 	int r = close(fd);
 	if (r == 0 || errno != EBADF) fd_forget(fd);
+	// closing a number that is not open: harmless this time, but whoever gets that number next loses it to such a close
+	else if (fd >= 0 && in_task() && shim_hooks().on_bad_close) { int e = errno; shim_hooks().on_bad_close(fd); errno = e; }
 	return r;
 }
 extern "C" ssize_t simk_read(int fd, void *buf, size_t n)
